@@ -21,7 +21,8 @@ type tileCase struct {
 	X, Y       uint    `json:"-"`
 	TX         uint    `json:"x"`
 	TY         uint    `json:"y"`
-	Fx, Fy     float64 `json:"fx,omitempty"`
+	Fx         float64 `json:"fx,omitempty"`
+	Fy         float64 `json:"fy,omitempty"`
 }
 
 func axesSwapped(t *tms20.TileMatrixSet) bool {
